@@ -6,6 +6,7 @@ From DS Require Import Base.C13_Exn Gen.C13_ExcSpec.
 Import ListNotations.
 Open Scope string_scope.
 
+Definition xyz_guards_expected : list (string * string) := [("parseLines", "len(v5) == 0 or v5[0] == '#'"); ("parseLines", "v14 > v4 and len(v2[v14 - 1]) == 0"); ("parseLines", "v15 != 4"); ("parseLines", "v8 == 0 or v4 >= v14"); ("parseLines", "v8 is not None and len(v3) != v8")].
 Definition xyz_sites_expected : list site := [
   ("parseLines", "call:addNewAtom", [2], 1);
   ("parseLines", "float", [2], 1);
@@ -21,6 +22,7 @@ Definition xyz_sites_expected : list site := [
   ("parseLines", "strformat", [2], 1)
 ].
 
+Definition rawxyz_guards_expected : list (string * string) := [("parseLines", "len(v5) == 0 or v5[0] == '#'"); ("parseLines", "v4 >= v6"); ("parseLines", "v6 > v4 and len(v2[v6 - 1]) == 0"); ("parseLines", "v7[:3] == [True, True, True]"); ("parseLines", "v7[:4] == [False, True, True, True]"); ("parseLines", "v8 not in (3, 4)")].
 Definition rawxyz_sites_expected : list site := [
   ("parseLines", "call:addNewAtom", [1], 1);
   ("parseLines", "float", [1], 1);
@@ -32,6 +34,7 @@ Definition rawxyz_sites_expected : list site := [
   ("parseLines", "strformat", [1], 1)
 ].
 
+Definition pdffit_guards_expected : list (string * string) := [("_parse_shape", "v4 == 'sphere'"); ("_parse_shape", "v4 == 'stepcut'")].
 Definition pdffit_sites_expected : list site := [
   ("_parse_shape", "assert", [], 1);
   ("_parse_shape", "float", [], 2);
@@ -56,6 +59,7 @@ Definition pdffit_sites_expected : list site := [
   ("parseLines", "unbound:latpars", [1], 2)
 ].
 
+Definition discus_guards_expected : list (string * string) := [("_linesIterator", "v1 > 0 and v0.lines[v1 - 1].strip() == ''"); ("_parse_format", "v1[1] == 'pdffit'"); ("_parse_shape", "v4 == 'sphere'"); ("_parse_shape", "v4 == 'stepcut'")].
 Definition discus_sites_expected : list site := [
   ("_linesIterator", "index", [], 1);
   ("_parse_atom", "call:addNewAtom", [], 1);
@@ -92,6 +96,7 @@ Definition discus_sites_expected : list site := [
   ("parseLines", "strformat", [1], 2)
 ].
 
+Definition pdb_guards_expected : list (string * string) := [("parseLines", "v9 in ('SCALE2', 'SCALE3') and v7 is None"); ("parseLines", "v9 in ('SIGATM', 'ANISOU', 'SIGUIJ') and v6 is None")].
 Definition pdb_sites_expected : list site := [
   ("parseLines", "call:addNewAtom", [1], 1);
   ("parseLines", "call:dot", [1], 1);
@@ -117,6 +122,7 @@ Definition pdb_sites_expected : list site := [
   ("parseLines", "strformat", [1], 5)
 ].
 
+Definition xcfg_guards_expected : list (string * string) := [("_assign_auxiliaries", "not v3"); ("_assign_auxiliaries", "v6 == 'Biso'"); ("_assign_auxiliaries", "v6 == 'Uiso'"); ("_assign_auxiliaries", "v6.startswith('_') or not isinstance(getattr(v0, v6, 0.0), float)"); ("_assign_auxiliaries", "v6[0] in 'BU' and all((d in '123' for d in v6[1:]))"); ("parseLines", "len(v26) == v7 and v25 is not None"); ("parseLines", "v13.strip()"); ("parseLines", "v2 is None"); ("parseLines", "v3 is None")].
 Definition xcfg_sites_expected : list site := [
   ("_assign_auxiliaries", "call:getattr", [], 1);
   ("_assign_auxiliaries", "call:setattr", [], 2);
@@ -138,6 +144,7 @@ Definition xcfg_sites_expected : list site := [
   ("parseLines", "unbound:p_natoms", [1], 2)
 ].
 
+Definition cif_guards_expected : list (string * string) := [("_expandAsymmetricUnit", "v12 > 0"); ("_expandAsymmetricUnit", "v3.anisotropy"); ("_expandAsymmetricUnit", "v5.label + '_' + str(v11) in v8"); ("_expandAsymmetricUnit", "v5.label not in v0.anisotropy"); ("_parseCifBlock", "'_atom_site_label' not in v2"); ("_parseCifDataSource", "v0.stru is not None"); ("_parseSymOpTranslation", "not _rx_symop_translation.match(v0)"); ("_parseSymOpTranslation", "v4 and float(v4) == 0"); ("_parse_atom_site_aniso_label", "'_atom_site_aniso_label' not in v1"); ("_parse_atom_site_aniso_label", "v7 == '?'"); ("_parse_atom_site_aniso_label", "v7 not in v0.anisotropy"); ("_parse_atom_site_label", "v3"); ("_parse_atom_site_label", "v8 == '?'"); ("_parse_lattice", "'_cell_length_a' not in v1"); ("_parse_space_group_symop_operation_xyz", "v0.spacegroup is None"); ("_parse_space_group_symop_operation_xyz", "v0.spacegroup is None and v10 and IsSpaceGroupIdentifier(v10)"); ("_parse_space_group_symop_operation_xyz", "v3"); ("_parse_space_group_symop_operation_xyz", "v4"); ("_parse_space_group_symop_operation_xyz", "v4 and v0.spacegroup is None"); ("_tr_atom_site_label", "not v0.element"); ("leading_float", "v2 == '.' or v2 == '?'"); ("leading_float", "v3")].
 Definition cif_sites_expected : list site := [
   ("_expandAsymmetricUnit", "call:Atom", [], 1);
   ("_expandAsymmetricUnit", "call:ExpandAsymmetricUnit", [], 1);
